@@ -59,6 +59,7 @@ func runC16(c *Ctx) {
 	runC16SortSubjects(c)
 	runC16PushOrder(c)
 	runC16HeapContract(c)
+	runC16ClassPriority(c)
 	borrow(c, "O8", "C05", "O13", "", "a per-job table of the topology plugin that survives into the next job confines that job to the previous job's nodes: a higher-priority workload stays pending next to free nodes while an identical lower-priority one, attempted after a different predecessor, is placed")
 	borrow(c, "O6", "C08", "O5", "AllocatedNotPreemptible", "the non-preemptible quota gate must be monotone within a cycle: a deallocation that subtracts what the allocation never added lowers the queue's non-preemptible usage, so an earlier (higher-priority) workload is refused and an identical later one admitted")
 	p, fx := c.P, c.Fx
@@ -198,6 +199,20 @@ func runC16(c *Ctx) {
 				if !inL[s] {
 					exit = s
 				}
+			}
+			// the FIRST non-zero verdict decides: once a comparator has answered non-zero, no further comparator is
+			// consulted (priority is registered before elastic; a later plugin must not overrule an earlier one)
+			{
+				this := call
+				_, path, found := reachAvoiding([]cfgPos{afterInstr(this)}, func(x ssa.Instruction) bool { return x == h.Instrs[0] }, nil, func(from, to *ssa.BasicBlock) bool {
+					// only along edges on which the verdict is known to be non-zero … i.e. prune the "== 0" edges
+					return !fx.edgeEstablishes(from, to, func(f Fact) bool {
+						return f.T.Op == "bin" && len(f.T.Args) == 2 && f.T.Args[0].V == ssa.Value(this) && f.T.Args[1].String() == "const:0" &&
+							((f.T.Name == "==" && f.Pol) || (f.T.Name == "!=" && !f.Pol))
+					})
+				})
+				c.Check(!found, "O3", "MPT", funcKey(jof)+": the first non-zero comparator verdict ends the scan", instrPos(call), "no further comparator after a non-zero verdict",
+					"after a comparator has answered non-zero the next comparator is still consulted ("+pathStr(path)+"): a later plugin (elastic) overrules an earlier one (priority) and a lower-priority workload is ordered first")
 			}
 			// returns inside the loop: value is (j < 0) under j != 0
 			n := 0
@@ -757,4 +772,62 @@ func runC16HeapContract(c *Ctx) {
 		_, stores := show(fn)
 		c.Check(ok, "O10", "PROV", funcKey(fn)+": Swap exchanges exactly the two slots", fn.Pos(), strings.Join(stores, " ; "), "Swap does not exchange items[i] and items[j] ("+strings.Join(stores, " ; ")+"): every sift of container/heap corrupts the order")
 	}
+}
+
+// runC16ClassPriority (O11): a workload's priority is the value of its PriorityClass whenever that class exists —
+// including the legal value 0. The default priority stands in only for a class that was not found. A "non-zero"
+// test on the found value treats a value-0 class (best-effort) as unset and orders that workload with the default
+// priority, above workloads whose class value lies between 1 and the default.
+func runC16ClassPriority(c *Ctx) {
+	f := c.Anchor("O11", "pkg/scheduler/cache/cluster_info", "", "getPodGroupPriority")
+	if f == nil {
+		return
+	}
+	fx := c.Fx
+	notFound := func(fs FactSet) bool {
+		if fs.Bottom {
+			return true
+		}
+		_, ok := hasFact(fs, func(ft Fact) bool {
+			return ft.T.Op == "bin" && len(ft.T.Args) == 2 && ft.T.Args[1].isNilConst() && strings.Contains(ft.T.Args[0].String(), "GetPriorityClassByName") &&
+				((ft.T.Name == "!=" && ft.Pol) || (ft.T.Name == "==" && !ft.Pol))
+		})
+		return ok
+	}
+	n := 0
+	var walk func(v ssa.Value, facts []FactSet, at token.Pos, seen map[ssa.Value]bool)
+	walk = func(v ssa.Value, facts []FactSet, at token.Pos, seen map[ssa.Value]bool) {
+		if phi, ok := v.(*ssa.Phi); ok {
+			if seen[v] {
+				return
+			}
+			seen[v] = true
+			for i, e := range phi.Edges {
+				if i >= len(phi.Block().Preds) {
+					continue
+				}
+				walk(e, []FactSet{fx.edgeFacts(phi.Block().Preds[i], phi.Block(), 0)}, at, seen)
+			}
+			return
+		}
+		if prm, ok := v.(*ssa.Parameter); ok && prm == f.Params[1] {
+			n++
+			all := len(facts) > 0
+			for _, fs := range facts {
+				if !notFound(fs) {
+					all = false
+				}
+			}
+			c.Check(all, "O11", "RET", funcKey(f)+": the default priority is answered only when the PriorityClass was not found", at, "err != nil of the class lookup on every such path",
+				"the default priority can be answered although the workload's PriorityClass exists (e.g. because its value is 0): a best-effort class is ordered like the default class, above genuinely higher classes below the default")
+		}
+	}
+	for _, b := range f.Blocks {
+		ret, ok := b.Instrs[len(b.Instrs)-1].(*ssa.Return)
+		if !ok {
+			continue
+		}
+		walk(unspill(ret, 0), fx.pathFactsTo(b, 3), ret.Pos(), map[ssa.Value]bool{})
+	}
+	c.Floor("O11", "RET default-priority answers", n, 1)
 }
